@@ -54,15 +54,15 @@ CHECKS = {
 
 CHECKS.update({
  "C02": ("HIST+CONC", "exploration",
-   "Seeded calls of every non-terminating severity through every entry point (also the package-level functions) with generated well-formed and malformed argument lists of every Go kind, over three formats, random flags, logger levels and 1-3 destinations per class; the per-destination I/O history during each call is the observable: no panic, exactly one Write per selected destination ending in a newline, none when not admitted, a single newline byte for blank Print/Println. The pool tape recycles buffers and attribute slices between calls; a quarter of the episodes issue the same calls from 2-3 concurrent caller tasks under the seeded scheduler.",
+   "Seeded calls of every non-terminating severity through every entry point (also the package-level functions) with generated well-formed and malformed argument lists of every Go kind, over three formats, random flags, logger levels and 1-3 destinations per class; the per-destination I/O history of each call is the observable: no panic, exactly one Write per selected destination ending in a newline, none when not admitted, a single newline byte for blank Print/Println. The pool tape recycles buffers and attribute slices between calls; a quarter of the episodes issue the same calls from 2-3 concurrent caller tasks under the seeded scheduler, where writes are attributed to calls by the call token in the payload (which goroutine performs the Write is not part of the statement).",
    "The argument space itself is workload generation; the simulation ingredients are the recorded I/O history per destination and the pool-recycling tape. Admission and selection come from the C01/C03 reference models. Values whose own methods panic and cyclic values are excluded by the statement.",
    "deterministic simulation: per-call I/O histories at simulated destinations, pool-recycling tape, reference admission and routing models", "DESIGN.md §5 C02"),
  "C08": ("CONC+CONC-race", "exploration",
-   "Seeded search over schedules of 1-64 caller tasks: exactly one task runs at a time and a tape decides who runs at every user-callback boundary (attribute Key/Value, String, Error, context Value, Write entry/exit, stalls), so preemption happens inside the sort, dedupe and serialisation of a record. Every payload must be the complete record of exactly one call (unique token and values), per-destination conservation must hold, and the same workloads run in a race-transparent world (tasks parked by spinning in norace code, GOMAXPROCS=1) where the Go race detector must stay silent. Scheduling styles are mixed per episode: stay-probability, PCT-like d preemptions at random depths, and both in a world built with overlay rule R4 where every function entry of package slog (463 sites) is a yield point.",
+   "Seeded search over schedules of 1-64 caller tasks: exactly one task runs at a time and a tape decides who runs at every user-callback boundary (attribute Key/Value, String, Error, context Value, Write entry/exit, stalls), so preemption happens inside the sort, dedupe and serialisation of a record. Every payload must be the complete record of exactly one call (unique token and values, and with the caller field on, the call site of the issuing statement), per-destination conservation must hold (records are matched to calls by content, not by the goroutine that wrote them), and the same workloads run in a race-transparent world (tasks parked by spinning in norace code, GOMAXPROCS=1) where the Go race detector must stay silent. Scheduling styles are mixed per episode: stay-probability, PCT-like d preemptions at random depths, and both in a world built with overlay rule R4 where every function entry of package slog (463 sites) is a yield point.",
    "Preemption points are callback boundaries (all episodes) and function entries of package slog (fine-world episodes); a switch between two statements without a call in between is reachable only for the race detector. The race detector keeps a bounded access history (race episodes are short). In the race world the real sync.Pool runs, so pooled-object choice is not on the tape there (replay retries up to 8 times).",
    "deterministic simulation: seeded scheduler over real goroutines, schedule tape, destination stalls, happens-before race detection made schedule-deterministic", "DESIGN.md §5 C08, §2.4"),
  "C09": ("CONC", "exploration",
-   "The same probe call (fixed timestamp through WriteThru, fixed call site) is issued in the pristine world process and again after seeded histories of 0-200 other calls on 1-4 tasks; the pool tape decides whether the probe is formatted in a fresh, the most recently recycled or an older context; payloads must be byte-identical. Histories include records from the probe's own call site, arbitrary attribute lists (every value kind, reserved key names, stack-carrying errors), multi-line messages, custom levels registered with one or two colours and instants next to the probe's own (same instant in another zone, same second, +-1 h ...). Every sixth episode compares twin loggers: made and configured by the same calls, one of them printing records between the configuration calls.",
+   "The same probe call (fixed timestamp through WriteThru, fixed call site) is issued in the pristine world process and again after seeded histories of 0-200 other calls on 1-4 tasks; the pool tape decides whether the probe is formatted in a fresh, the most recently recycled or an older context; payloads must be byte-identical. Histories include records from the probe's own call site, arbitrary attribute lists (every value kind, reserved key names, stack-carrying errors), multi-line messages, custom levels registered with one or two colours and instants next to the probe's own (same instant in another zone, same second, +-1 h ...). Every sixth episode compares twin loggers: made and configured by the same calls, one of them printing records between the configuration calls. Another sixth are cold episodes: the probe is printed after the history only and compared with the bytes of a reference world (a second process given the same set-up and the probe alone), so state filled at first sight and kept for the life of the process shows; their texts contain code points that collide in truncated-index tables.",
    "No configuration change between the two probes; in twin episodes both loggers see the same configuration calls (generator invariants, enforced for minimised scenarios).",
    "deterministic simulation: histories x schedules x pool-recycling tape, byte equality", "DESIGN.md §5 C09"),
  "C12": ("PROC+CONC", "fault_enumeration",
